@@ -466,8 +466,12 @@ def lw5(prog, rr):
                 rr.finding(f, lp, "EnumFieldModel.build", "LW5: the enumerator loop iterates '%s', not all of self.enums" % it)
             ops = set()
             eqs = 0
+            from sa.ir import local_defs as _ld
+            ldefs = _ld(lp)
             for asg in assigns:
-                for c in ast.walk(asg.value):
+                # the accumulated value, with terms hoisted into a local of the loop body (`is_e = btor.Eq(..)`) followed
+                exprs = [asg.value] + [d for nm in names_in(asg.value) if nm != acc and "." not in nm for d in ldefs.get(nm, [])]
+                for c in [x for e in exprs for x in ast.walk(e)]:
                     if isinstance(c, ast.Call) and recv_text(c) == btor:
                         ops.add(call_name(c))
                         if call_name(c) == "Eq":
